@@ -308,6 +308,46 @@ fn product_f64(d: &mut Draw) -> Outcome {
             ensure!(r.iter().all(|x| x.is_finite()) && (r[0] - 1.0).abs() <= 8.0 * lost && r[1].abs() + r[2].abs() + r[3].abs() <= 8.0 * lost, "inverse-tiny-f64", "q * invert(q) = {:?} for q of magnitude 2^{} (|q|^2 = {:e})", r, k, sq.magnitude2());
         }
     }
+    // q * v is linear in v: multiplying v by a power of two multiplies the result by it, exactly - all the way up to the
+    // top binade, as long as every quantity of the statement's own formula (v, qv x v + s v, qv x (..), twice that, the
+    // sum) is a finite number there
+    let mut top = "";
+    {
+        let uq = match d.int(0, 3) {
+            0 => [1.0, 0.0, 0.0, 0.0],
+            1 => [-1.0, 0.0, 0.0, 0.0],
+            2 => gen(d, 1),
+            _ => fnormalize4(&p),
+        };
+        let m = v[0].abs().max(v[1].abs()).max(v[2].abs());
+        if m > 0.0 && uq.iter().all(|x| x.is_finite()) {
+            // the largest component lands in [2^1023, 2^1024), or a few binades below
+            let e = 1023 - m.log2().floor() as i32 - d.pick(&[0i64, 0, 0, 1, 2, 40]) as i32;
+            let e = if m * (2.0f64).powi(e / 2) * (2.0f64).powi(e - e / 2) == f64::INFINITY { e - 1 } else { e };
+            let up = |x: f64| x * (2.0f64).powi(e / 2) * (2.0f64).powi(e - e / 2);
+            let vs = [up(v[0]), up(v[1]), up(v[2])];
+            let qv = [uq[1], uq[2], uq[3]];
+            let inner = add3(&cross3(&qv, &vs), &scale3(&vs, uq[0]));
+            let c = cross3(&qv, &inner);
+            let res = add3(&vs, &scale3(&c, 2.0));
+            let fin = |t: &[f64; 3]| t.iter().all(|x| x.is_finite());
+            // (the cross products' two terms are formed separately: bound them by the products of the largest entries)
+            let big = |a: &[f64; 3], b: &[f64; 3]| 2.0 * a.iter().fold(0.0f64, |s, x| s.max(x.abs())) * b.iter().fold(0.0f64, |s, x| s.max(x.abs()));
+            if fin(&vs) && fin(&inner) && fin(&c) && fin(&res) && fin(&scale3(&c, 2.0)) && big(&qv, &vs).is_finite() && big(&qv, &inner).is_finite() && (2.0 * big(&qv, &inner)).is_finite() {
+                let cu = mk_q(&uq);
+                let small = v3(cu * Vector3::from(v));
+                let got = v3(cu * Vector3::from(vs));
+                let gotr = v3(cu.rotate_vector(Vector3::from(vs)));
+                d.note("unit q, v scaled into the top binades", &(uq, vs));
+                for i in 0..3 {
+                    let want = up(small[i]);
+                    ensure!(got[i].is_finite() && (got[i] - want).abs() <= 8.0 * f64::EPSILON * up(m), "q*v-scale-covariance-f64", "component {} of q * (2^{} v) is {:e}, 2^{} (q * v) = {:e} (q = {:?}, v = {:?})", i, e, got[i], e, want, uq, v);
+                    ensure!(gotr[i].to_bits() == got[i].to_bits(), "rotate_vector-f64", "rotate_vector differs from * in component {} for a vector in the top binades", i);
+                }
+                top = "+top-binade-vector";
+            }
+        }
+    }
     // scalar on the left (primitive floats only) and the remaining scalar forms: exact per component
     let k = if class == 2 { 1.5 } else { d.f64_slog(1e-3, 1e3) };
     let left = rq(&(k * cp));
@@ -321,7 +361,11 @@ fn product_f64(d: &mut Draw) -> Outcome {
         ensure!(ldiv[i].to_bits() == (k / p[i]).to_bits(), "scalar-left-div-f64", "component {} of k / p is {:e}, k / p_i = {:e}", i, ldiv[i], k / p[i]);
         ensure!(rem[i].to_bits() == (p[i] % k).to_bits() && rq(&inplace)[i].to_bits() == rem[i].to_bits(), "rem-f64", "component {} of p % k is {:e}, p_i % k = {:e}", i, rem[i], p[i] % k);
     }
-    pass(["generic", "near-one", "wide-magnitudes", "unit"][class as usize], true)
+    let _ = top;
+    pass(match (class, top.is_empty()) {
+        (0, true) => "generic", (1, true) => "near-one", (2, true) => "wide-magnitudes", (_, true) => "unit",
+        (0, false) => "generic+top-binade-vector", (1, false) => "near-one+top-binade-vector", (2, false) => "wide-magnitudes+top-binade-vector", (_, false) => "unit+top-binade-vector",
+    }, true)
 }
 
 const RULE: &str = "all four components of every quaternion non-zero; vector components non-zero and pairwise distinct";
@@ -337,7 +381,7 @@ pub fn property() -> Property {
     add!("algebra-Fp", "Fp", algebra::<Fp>, 5000, 400_000, 64, &[("generic", 200)]);
     add!("rotation-Q", "Q", rotation::<Q>, 5000, 400_000, 64, &[("generic", 100)]);
     add!("rotation-Fp", "Fp", rotation::<Fp>, 5000, 400_000, 64, &[("generic", 200)]);
-    add!("product_rotation-f64", "f64", product_f64, 8000, 500_000, 128, &[("generic", 100), ("near-one", 100), ("wide-magnitudes", 100), ("unit", 100)]);
+    add!("product_rotation-f64", "f64", product_f64, 8000, 500_000, 128, &[("generic+top-binade-vector", 50), ("near-one+top-binade-vector", 50), ("wide-magnitudes+top-binade-vector", 50), ("unit+top-binade-vector", 50)]);
     Property {
         id: "C04",
         title: "Quaternions obey Hamilton's algebra and unit quaternions act as rotations",
